@@ -187,6 +187,16 @@ def decompress_g1_all_words(rep, tier):
 
 @obligation("C11", "compress_decompress_G1_all_points", bound="every affine point (x, y) in [0,q)^2 with y^2 == x^3 + 4 and every projective scaling; infinity in any representation (x, y, 0); QF_UFLIA + lemma instances")
 def roundtrip_g1(rep, tier):
+    _roundtrip_g1(rep, tier, False)
+
+
+def roundtrip_g1_subgroup(rep, tier):
+    """the same obligation restricted to x != 0: every point of the prime-order subgroup has x != 0 ((0, +-2) have order 3)."""
+    rep.assume("x != 0: the two curve points with x = 0 have order 3 and are never public keys (C11 owns the all-points statement and its known finding)")
+    _roundtrip_g1(rep, tier, True)
+
+
+def _roundtrip_g1(rep, tier, nonzero_x):
     pc = mod(PC)
     o = mod(OPT)
     q = _q()
@@ -202,6 +212,8 @@ def roundtrip_g1(rep, tier):
         y = SymZ.var("y", 0, q - 1)
         ctx.pow_hook = sqrt_hook_g1(q, residue_known=True, known_root=[y])
         ctx.assume((y * y) % q == (x ** 3 + 4) % q)       # the point is on the curve
+        if nonzero_x:
+            ctx.assume(x.t != 0)
         ctx.add_fact(y.t != 0)                                 # lemma: x^3 + 4 != 0 (no 2-torsion), so y != 0
         pt = (FQ(x), FQ(y), FQ(1))
         z = pc.compress_G1(pt)
